@@ -28,7 +28,9 @@ def _run(module, cfg, metadir, env=None, workers=1, extra=(), timeout=3600, heap
     e = dict(os.environ)
     if env:
         e.update({k: str(v) for k, v in env.items()})
-    cmd = ["java", "-XX:+UseParallelGC", "-XX:ParallelGCThreads=" + ("2" if workers == 1 else "8"), "-Xmx" + heap, "-Xss256m", "-cp", JAR, "tlc2.TLC",
+    # the JVM's temporary directory is the run's own metadir (removed afterwards): TLC leaves an empty tlc-<n> directory per run behind in java.io.tmpdir
+    os.makedirs(metadir, exist_ok=True)
+    cmd = ["java", "-Djava.io.tmpdir=" + metadir, "-XX:+UseParallelGC", "-XX:ParallelGCThreads=" + ("2" if workers == 1 else "8"), "-Xmx" + heap, "-Xss256m", "-cp", JAR, "tlc2.TLC",
            "-workers", str(workers), "-metadir", metadir, "-noGenerateSpecTE",
            "-config", cfg if os.path.isabs(cfg) else os.path.join(SPEC, cfg)] + list(extra) + [os.path.join(SPEC, module)]
     t0 = time.time()
